@@ -34,8 +34,14 @@ func (n *Nodis) Set(key string, value []byte, keepTTL bool) {
 func (n *Nodis) GetSet(key string, value []byte) []byte {
 	var v []byte
 	_ = n.exec(func(tx *Tx) error {
-		meta := tx.writeKey(key, n.newStr)
-		v = meta.value.(*str.String).GetSet(value)
+		meta := tx.writeKey(key, nil)
+		if !meta.isOk() {
+			// no such key: there is no old value (nil, not the empty string of a fresh key)
+			meta = tx.newKey(meta, key, n.newStr)
+			meta.value.(*str.String).Set(value)
+		} else {
+			v = meta.value.(*str.String).GetSet(value)
+		}
 		meta.key.Expiration = 0
 		n.signalModifiedKey(key, meta)
 		n.notify(func() []patch.Op {
